@@ -271,5 +271,8 @@ func c04(c *ctx) {
 		sc.build(fs, i)
 		t.run(sc)
 	}
+	// after a message ends - also one that was given up half-way, inside a multi-byte sequence - the
+	// reader is ready for the next one (sampled from the family C18 runs in full)
+	reuseFamily(t, c, "ready", func(rot, disc int) bool { return c.thorough && rot%3 == 0 || rot%5 == 2 })
 	t.finish(c)
 }
